@@ -125,7 +125,7 @@ const prelude = `(set-option :smt.mbqi false)
 (assert (forall ((b Bytes)) (! (>= (blen b) 0) :pattern ((blen b)))))
 (assert (forall ((b Bytes) (i Int)) (! (and (<= 0 (bat b i)) (< (bat b i) 256)) :pattern ((bat b i)))))
 (assert (forall ((a (Array Int Int)) (o Int) (n Int)) (! (=> (>= n 0) (= (blen (bytes.of a o n)) n)) :pattern ((bytes.of a o n)))))
-(assert (forall ((a (Array Int Int)) (o Int) (n Int) (i Int)) (! (=> (and (<= 0 i) (< i n)) (= (bat (bytes.of a o n) i) (select a (+ o i)))) :pattern ((bat (bytes.of a o n) i)))))
+(assert (forall ((a (Array Int Int)) (o Int) (n Int) (i Int)) (! (=> (and (<= 0 i) (< i n) (<= 0 (select a (+ o i))) (< (select a (+ o i)) 256)) (= (bat (bytes.of a o n) i) (select a (+ o i)))) :pattern ((bat (bytes.of a o n) i)))))
 (assert (forall ((x Bytes) (y Bytes)) (! (= (bytes.eq x y) (= x y)) :pattern ((bytes.eq x y)))))
 (assert (forall ((x Bytes) (y Bytes)) (! (=> (and (= (blen x) (blen y)) (=> (and (<= 0 (bytes.diff x y)) (< (bytes.diff x y) (blen x))) (= (bat x (bytes.diff x y)) (bat y (bytes.diff x y))))) (= x y)) :pattern ((bytes.eq x y)))))
 `
@@ -289,6 +289,12 @@ func (s *Sorts) fieldAcc(sortName string, st *types.Struct, i int) string {
 // zero returns the zero value term of a type.
 func (s *Sorts) zero(t types.Type) string {
 	t = types.Unalias(t)
+	if _, ok := t.(*types.TypeParam); ok {
+		n := s.sortOf(t)
+		z := "zero." + n
+		s.decl("zero:"+n, fmt.Sprintf("(declare-const %s %s)", z, n))
+		return z
+	}
 	switch u := t.Underlying().(type) {
 	case *types.Basic:
 		switch {
